@@ -86,6 +86,14 @@ Theorem chase_depth_is_10 : cname_chase_depth = 10 /\ max_cname_chase_depth = 10
 Proof. exact gen_chase_depth. Qed.
 Print Assumptions chase_depth_is_10.
 
+(* resolver.minRRSetTTL (the "DS TTL" of the lease: processDelegation applies it to the DS set validation retained),
+   translated from the source on every run - a range loop over []dns.RR with dns.RR as a sum type - is the model's
+   [rrset_min_ttl]: the smallest TTL of the set, 0 for the empty set, whatever the records' dynamic types *)
+Theorem minRRSetTTL_is_model : forall rrs,
+  Z.of_N (go_minRRSetTTL rrs) = rrset_min_ttl (map (fun rr => Z.of_N (rr_ttl rr)) rrs).
+Proof. exact gen_minRRSetTTL. Qed.
+Print Assumptions minRRSetTTL_is_model.
+
 (* cache.CacheEntry.remaining (the one place that decides how long a stored answer is served), translated
    from the source on every run, is the model's: TTL minus age, cut short by the inherited cut *)
 Theorem entry_remaining_is_model : forall e now, go_CacheEntry_remaining e now = ae_remaining (ae_of e) now.
@@ -243,6 +251,19 @@ Theorem learned_through_dies_with_lease : forall acts st, st = run code_fx acts 
 Proof. exact learned_through_fixed. Qed.
 Print Assumptions learned_through_dies_with_lease.
 
+(* ... and so has everything the DERIVED denial stores keep: a validated denial admitted under a request tree is also
+   filed in the RFC 8020 cut store (it denies every name below the denied one) and in the RFC 8198 proof index (it
+   denies every name its NSEC / NSEC3 records cover) - both answer other questions without asking anybody.  What they
+   file under a tree at [now] for a proof that allows [ttl] ends at [derived_end] = min(now + ttl, the tree's cut): within
+   the granted lease of every parent-side referral the tree learned anything through, whatever the proof's own TTL,
+   for every history.  (Driver `sec`: the real stores' expiries against this, and no old proof served after the lease.) *)
+Theorem derived_denial_dies_with_lease : forall acts st, st = run code_fx acts st_init ->
+  forall tree now ttl l, In l (mt_lin (st_meta st tree)) ->
+  derived_end st tree now ttl <= l_spec l /\ derived_end st tree now ttl <= now + ttl /\
+  l_spec l = l_code l /\ l_code l <= l_obs l + l_ttl l.
+Proof. exact derived_dies_fixed. Qed.
+Print Assumptions derived_denial_dies_with_lease.
+
 (* the deadline the code derives is the granted lease, for every referral in every lineage *)
 Theorem code_lease_is_granted_lease : forall acts st, st = run code_fx acts st_init ->
   (forall e l, In e (st_ans st) -> In l (ae_lin e) -> l_spec l = l_code l /\ l_code l <= l_obs l + l_ttl l) /\
@@ -303,6 +324,54 @@ Theorem unfolded_hop_hands_nothing_up : forall h, chase_inherits h = false ->
   h_err h = true \/ (h_records h = false /\ h_nx h = false /\ h_proof h = false).
 Proof. exact unfolded_hop_lemma. Qed.
 Print Assumptions unfolded_hop_hands_nothing_up.
+
+(* A sub-query of the chase may be answered from the cache (the loop asks the last alias target of a reply that ends
+   in an alias again, and the deeper leg has just stored that answer; or the target was cached all along).  It then
+   runs under its own request tree, which the hit binds to the stored entry's lifetime.  Wherever in the loop it comes
+   and whatever the other sub-queries are: when the loop inherits it, what tree p admits afterwards carries
+   everything the entry e was learned through and ends no later than e itself - so with
+   [learned_through_dies_with_lease] a reply composed from a cached target dies with every lease the cached
+   target was learned through.  [ex_hit_hop] (Proofs_chase.v): a 30 s denial behind two aliases under hour-long
+   leases - the outer entry ends at 30 s because of the second sub-query, at one hour without it. *)
+Theorem cached_hop_ends_with_its_entry : forall fx depth p hops st tree idx e h key ttl now,
+  nth_error (st_ans st) idx = Some e ->
+  (forall h', In h' hops -> h_tree h' <> p) ->
+  In h (chase_used depth hops) -> h_tree h = tree -> chase_inherits h = true ->
+  match st_ans (step fx (AStore p key ttl now) (chase fx depth p hops (step fx (AHit tree idx) st))) with
+  | e' :: _ => incl (ae_lin e) (ae_lin e') /\ ae_end e' <= ae_end e
+  | [] => False
+  end.
+Proof. exact hit_hop_lemma. Qed.
+Print Assumptions cached_hop_ends_with_its_entry.
+
+(* Nesting, in general.  The sub-query for an alias target is a full request of its own: by the time it replies its
+   tree c may have run a chase itself (with loops of any length), may have been bound to stored entries, may have
+   descended through any delegations.  Whatever c holds then - stated as: it holds everything some tree d held in some
+   earlier state st0, lineage and every bound on the cut ([meta_ext], Proofs_chase.v) - the loop that inherits c hands
+   on to tree p and to what p admits.  By induction over the nesting depth: a reply composed along alias chains of any
+   depth, with chase loops of any length at every level, carries the lineage and ends within the cut of every request
+   tree that fed it through a run of inherited sub-queries.  (The chain driver observes exactly these runs on the real
+   pipeline and compares every level's stored entry with the model's.) *)
+Theorem nested_chase_hands_up_what_the_subquery_holds : forall fx depth p hops st st0 d h key ttl now,
+  (forall h', In h' hops -> h_tree h' <> p) ->
+  In h (chase_used depth hops) -> chase_inherits h = true ->
+  meta_ext (st_meta st0 d) (st_meta st (h_tree h)) ->
+  meta_ext (st_meta st0 d) (st_meta (chase fx depth p hops st) p) /\
+  match st_ans (step fx (AStore p key ttl now) (chase fx depth p hops st)) with
+  | e :: _ => incl (mt_lin (st_meta st0 d)) (ae_lin e) /\
+              (forall v, cut_time (mt_cut (st_meta st0 d)) = Some v -> ae_end e <= v)
+  | [] => False
+  end.
+Proof. exact nested_chase_lemma. Qed.
+Print Assumptions nested_chase_hands_up_what_the_subquery_holds.
+
+(* the chase of tree p never touches another tree's sink, and sub-queries it does not inherit leave its own as it was *)
+Theorem chase_touches_only_its_own_tree : forall fx depth p hops st,
+  (forall t, t <> p -> st_meta (chase fx depth p hops st) t = st_meta st t) /\
+  ((forall h, In h (chase_used depth hops) -> chase_inherits h = false) ->
+   st_meta (chase fx depth p hops st) p = st_meta st p).
+Proof. exact chase_frame_lemma. Qed.
+Print Assumptions chase_touches_only_its_own_tree.
 
 (* Alias chains nest: the sub-query for an alias target is a full resolution whose own reply may be composed from a
    further alias leg, and so on ([fold_chain]: innermost fold first).  What the outermost tree admits carries the
